@@ -20,11 +20,12 @@ VOCAB = [("collections", "OrderedDict"),    # built in
          ("fractions", "Fraction"),         # module not in the table
          ("decimal", "Decimal"),            # another one
          ("numpy", "zeros"),                # new member of an allow-listed module
+         ("numpy.core.multiarray", "scalar"),  # new member of an allow-listed DOTTED module
          ("verif_sink", "record")]          # never added
 ADDS = [None,                                                    # none
         ["fractions.Fraction"],                                  # new module
         ["collections.Counter"],                                 # new member of an allow-listed module
-        ["decimal.Decimal", "numpy.zeros", "collections.deque"],  # both
+        ["decimal.Decimal", "numpy.zeros", "collections.deque", "numpy.core.multiarray.scalar"],  # both
         ["collections.OrderedDict"],                             # re-adds a built-in entry
         ["decimal.Decimal", "decimal.Context", "collections.Counter", "collections.Counter"],
         []]
